@@ -196,8 +196,15 @@ def timeout_always_evaluated(t, rid):
     kinds = {k for k, _ in tests}
     if not somes or kinds != {"timeout", "state"}:
         r.samples.append(f"not evaluated: anchors not resolved (occupied-slot edges {len(somes)}, tests {sorted(kinds)})"); return r
+    # the slot being emptied counts as the clean-up having been reached (`if timed_out || state == Disconnected` skips the state test when the
+    # timeout already decided)
+    clears = set()
+    for x in t.sites(f):
+        n = x.node
+        if n["k"] == "assign" and n["place"]["proj"] and "clients[" in fmt(t.place(x)) and fmt(t.stored(x)).endswith("Option::None{}"): clears.add(pos(x))
+        elif n["k"] == "call" and n["args"] and method_of(callee_name(n)) == "take" and "clients[" in fmt(t.arg(x, 0)): clears.add(pos(x))
     for kind in ("timeout", "state"):
-        tg = {(br["bb"], len(f.blocks[br["bb"]]["stmts"])) for k, br in tests if k == kind}
+        tg = {(br["bb"], len(f.blocks[br["bb"]]["stmts"])) for k, br in tests if k == kind} | (clears if kind == "state" else set())
         for sb in somes:
             r.sites += 1
             ok, w = must_pass(f, (sb, -1), tg)
